@@ -248,7 +248,7 @@ class Term(ItemSequenceT[T]):
             pass
         it = _iter_normalized(self, self.normalize_elem)
         items = self._reduce_items(it, keep_item_order=False)
-        if items == self._items:  # self is already normalized
+        if _same_items(items, self._items):  # self is already normalized
             self._normalized = self
             return self
         term = self.__class__(items, reduce_items=False)
@@ -420,6 +420,24 @@ def _num_pow(num: Rational, exp: int) -> Rational:
         # int ** negative int would give an (inexact) float
         return Fraction(1, int(num) ** -exp)
     return cast(Rational, num ** exp)
+
+
+def _same_items(items1: ItemSequenceT[T], items2: ItemSequenceT[T]) -> bool:
+    """Return True if both sequences hold the same elements and exponents.
+
+    Non-numerical elements are compared by identity (not by `==`, which, for
+    example, holds for different units having the same scale).
+    """
+    if len(items1) != len(items2):
+        return False
+    for (elem1, exp1), (elem2, exp2) in zip(items1, items2):
+        if exp1 != exp2:
+            return False
+        if elem1 is not elem2:
+            if not (isinstance(elem1, Rational) and
+                    isinstance(elem2, Rational) and elem1 == elem2):
+                return False
+    return True
 
 
 def _filter_items(items: ItemIterableT[T]) \
